@@ -164,18 +164,17 @@ CHECKS['C12'] = dict(
    technique='Coq proof (congruence of every decoder under agreement on the datagram prefix, lifted to the server and client steps), differential correspondence over varied residues',
    design='4/C12')
 CHECKS['C06'] = dict(
-   text='PARTIAL (the decoders and the tunnel state machine are proved safe for all inputs; the handshake has a sequencing model with two theorems; its raw-UDP half '
-        'and compiler-level undefined behaviour are covered by sanitizer runs only). '
+   text='PARTIAL (the decoders and the tunnel state machine are proved safe for all inputs; the handshake has a sequencing model with three theorems; compiler-level '
+        'undefined behaviour and the buffer handling inside the handshake functions are covered by sanitizer runs only). '
         'Coq theorems for all inputs about the client-side decoders and the client tunnel model: every write stays within its destination (decoded answers, '
         'readname, readtxtbin, the 250x256 MX name array and its output loop, dns_namedec including its trailing NUL), fuel adequacy / termination of every '
         'loop with explicit work bounds, the reassembly buffer and counters stay in range over arbitrary event histories (given zlib output fits its buffer), and '
         'a reply that matches none of the recent queries leaves the tunnel state unchanged and writes nothing to tun. The handshake (handshake_waitdns and every '
-        'step built on it, handshake_login, client_handshake without the raw-UDP attempt) has a sequencing model over scripts of replies and time-outs: every step, '
-        'and the whole handshake, sends a bounded number of queries for every script (5/3/21/12/27/48, 141 in all) and consumes the script from the front, and '
-        'datagrams whose DNS id reads as 0 change nothing wherever they arrive. Tied to the C by decoder, tunnel-history and scripted-handshake runs (model and real '
-        'functions must end in the same state with the same return value, system() commands, queries sent and script left), all under ASan/UBSan; '
-        'handshake_raw_udp has no model.',
-   note='Trusts: ASan/UBSan as the memory-safety observer for code without a model (handshake_raw_udp, the buffer handling inside the handshake functions, '
+        'step built on it, handshake_login, handshake_raw_udp, client_handshake) has a sequencing model over scripts of replies and time-outs: every step, '
+        'and the whole handshake, sends a bounded number of queries for every script (5/3/21/12/27/48/7, 148 in all) and consumes the script from the front; '
+        'datagrams whose DNS id reads as 0 change nothing wherever they arrive in the DNS steps; the raw login accepts only login(seed-1) (junk uses up an attempt: witness). Tied to the C by decoder, tunnel-history and scripted-handshake runs (model and real '
+        'functions must end in the same state with the same return value, system() commands, queries sent and script left), all under ASan/UBSan.',
+   note='Trusts: ASan/UBSan as the memory-safety observer for code without a model (the buffer handling inside the handshake functions, '
         'tun_setip, libc, zlib); per-datagram work bound is prose over formal pieces; Coq kernel; translator; extraction; gcc/clang runtime.',
    technique='Coq proof (bounds invariants of the decoder models, fuel adequacy, state invariant by induction over events; handshake sequencing in a state-and-script '
              'monad with bound and ignore predicates closed under bind / retry), differential correspondence, sanitizer runs',
